@@ -122,6 +122,12 @@ def make_run(cfg):
                         b.echo(token + "a")
                         b.echo(token + "b")
                         return ("ok", list(b()))
+                    if kind == "rebatch":      # a oneway batch, then the same BatchProxy used again
+                        b = client.BatchProxy(proxy)
+                        b.echo(token + "a")
+                        first = b(oneway=True)
+                        b.echo(token + "b")
+                        return ("ok", [first] + list(b()))
                     if kind == "attr":
                         return ("ok", proxy.attr)
                     if kind == "stream":
@@ -185,8 +191,8 @@ def make_run(cfg):
                         V("foreign-reply-returned|final", "final call returned %r" % (last[1],))
                     continue
                 kind, token, r, inb, read_after = rec
-                execd = tgt.executed.get(token, 0) if kind not in ("batch", "attr") else None
-                own_values = {"normal": token, "oneway": None, "batch": [token + "a", token + "b"], "attr": "attr-value", "stream": token + "-0"}
+                execd = tgt.executed.get(token, 0) if kind not in ("batch", "attr", "rebatch") else None
+                own_values = {"normal": token, "oneway": None, "batch": [token + "a", token + "b"], "rebatch": [None, token + "b"], "attr": "attr-value", "stream": token + "-0"}
                 if r[0] == "ok":
                     if kind == "raiser":
                         V("foreign-reply-returned|raiser-returned", "raiser(%s) returned %r" % (token, r[1]))
@@ -235,7 +241,8 @@ def configs(quick):
         h3 = sel3
     else:
         h3 = [list(p) for p in itertools.product(["normal", "raiser", "oneway", "stream"], repeat=3)]
-    for h in h1 + h2 + h3:
+    hb = [["rebatch"], ["rebatch", "normal"], ["oneway", "rebatch"]] + ([] if quick else [["rebatch", "rebatch"], ["normal", "rebatch"], ["batch", "rebatch"], ["rebatch", "stream"]])
+    for h in h1 + hb[:1] + h2 + hb[1:] + h3:
         for retries in (0, 1, 2):
             for seq0 in (0, 0xFFFE):
                 if quick:
@@ -243,17 +250,17 @@ def configs(quick):
                         continue
                     if seq0 and (retries or len(h) != 2):
                         continue
-                    if len(h) == 2 and retries == 1 and h[0] in ("batch", "attr"):
+                    if len(h) == 2 and retries == 1 and (h[0] in ("batch", "attr") or "rebatch" in h):
                         continue
                 else:
                     if len(h) == 3 and (seq0 or retries == 2):
                         continue
                 p = 2 if len(h) <= 2 else (2 if (not quick and h in sel3 and retries == 0) else 1)
-                if quick and len(h) == 2 and (retries or any(k in ("batch", "attr") for k in h)):
+                if quick and len(h) == 2 and (retries or any(k in ("batch", "attr", "rebatch") for k in h)):
                     p = 1
                 out.append({"history": h, "retries": retries, "seq0": seq0, "server": "multiplex", "p": p, "r": 3 if quick or len(h) < 3 else 2, "all_cuts": not quick, "horizon": 4000})
     # the thread-pool server: more threads, smaller budgets
-    for h in h1 + ([] if quick else [x for x in h2 if not any(k in ("batch", "attr") for k in x)]):
+    for h in h1 + hb[:1] + ([] if quick else [x for x in h2 if not any(k in ("batch", "attr") for k in x)]):
         for retries in ((0, 1) if quick else (0, 1, 2)):
             if not quick and len(h) == 2 and retries == 2:
                 continue
@@ -266,7 +273,7 @@ def run(ctx):
     stats = explore_parallel(ctx, task, cfgs, lambda c: c["p"], lambda c: c["r"])
     cov = coverage_from_stats(
         stats,
-        rule="call histories (all of length 1-2 over {normal, raising, oneway, batch of two, attribute read, stream fetch}, selected/all of length 3) on one proxy x MAX_RETRIES "
+        rule="call histories (all of length 1-2 over {normal, raising, oneway, batch of two, attribute read, stream fetch}, plus histories with a oneway batch followed by re-use of the same BatchProxy, selected/all of length 3) on one proxy x MAX_RETRIES "
              "{0,1,2} x initial sequence number {0, 0xFFFE} x server type; for every request the wire adversary's decision {deliver, reply lost (timeout), reset before / "
              "after processing, reply cut at header/payload offsets + reset, stale reply replayed, sequence number rewritten, reply duplicated} is a choice; all fault "
              "scripts with at most p faults (p per config, 1-2) are enumerated together with the message-level interleavings they induce; oracle: token ownership, per-token "
